@@ -24,5 +24,8 @@ CHECKS = {
     "C09": dict(level="model_checking", technique=SE + "; pool scheduling order is an explicit selector explored exhaustively, ODE solutions are uninterpreted flows",
                 text="scan.* and mc.* run on scan tables whose cells are z3 terms, sequentially and through a pebble stub that executes the tasks on deep copies in every order; per path z3 proves that variables and fluxes of every row equal the flow of a fresh model with exactly that row's values, under the row's own label and in input order; a failing row yields NaN at its own position.",
                 note=NOTE + " The pool stub implements pebble's documented map/schedule contract; OS-level process behaviour and pickling are outside."),
+    "C15": dict(level="model_checking", technique=SE + "; the ODE stub is the exact closed-form flow of a stable linear system with a symbolic contraction factor, or a drift flow",
+                text="Reduced scope (see DESIGN.md C15): the real convergence loop, Simulator.simulate_to_steady_state, get_result and the scan worker run over an ode stub returning y* + (y0-y*)e^n (0<e<=1/2 symbolic) or y0 + c n; z3 proves for all y0, y*, e, tolerance that a reported success lies within the tolerance of y* (absolute norm, 1-D and 2-D) with balancing fluxes, also when ode.integrate hands out the same array object each call, and that a drift of at least the tolerance per step yields NoSteadyState / a NaN row through the real 1000-iteration loop.",
+                note=NOTE + " Not claimed: LSODA's accuracy, the relative norm, non-linear networks."),
 }
 NOT_APPLICABLE = {}
